@@ -28,13 +28,15 @@ func DumpStatistics(m memory.Memory, fileName string, acmeLabels map[uint16][]st
 			}
 		}
 
-		numAccess := m.GetStatistics(count)
+		rawAccess := m.GetStatistics(count)
+		numAccess := rawAccess
 		if numAccess != 0 {
 			numAccess -= 1
 		}
 
+		// The cut off value is determined from the raw counts, so compare it with the raw count
 		prefix := "     "
-		if numAccess >= cutOff {
+		if rawAccess >= cutOff {
 			prefix = "###  "
 		}
 
